@@ -10,10 +10,11 @@ import (
 	"strconv"
 
 	"verif/checks"
+	"verif/tv"
 )
 
 func main() {
-	if len(os.Args) < 3 {
+	if len(os.Args) < 3 && !(len(os.Args) == 2 && os.Args[1] == "tvcal") {
 		fmt.Fprintln(os.Stderr, "usage: vcheck run <id> [--tier quick|thorough]")
 		os.Exit(2)
 	}
@@ -25,6 +26,27 @@ func main() {
 		fs.Parse(os.Args[3:])
 		seed, _ := strconv.Atoi(os.Getenv("VERIF_SEED"))
 		os.Exit(checks.Run(id, *tier, seed))
+	case "tvcal":
+		d, err := tv.NewDriver(checks.RepoRoot)
+		if err != nil {
+			fmt.Println(err)
+			os.Exit(2)
+		}
+		defer d.Close()
+		only := ""
+		if len(os.Args) > 3 {
+			only = os.Args[3]
+		}
+		res, err := tv.Calibrate(d, 8, only)
+		if err != nil {
+			fmt.Println("ERROR", err)
+			d.Close()
+			os.Exit(2)
+		}
+		for _, l := range res.Lines {
+			fmt.Println(l)
+		}
+		fmt.Printf("calibration: %d tests, %d agree, %d disagree, %d unsupported\n", res.Total, res.Agree, res.Disagree, res.Unsupported)
 	default:
 		fmt.Fprintln(os.Stderr, "unknown command", os.Args[1])
 		os.Exit(2)
